@@ -150,7 +150,7 @@ def on_write(ip, st, ev):
     # full copies  A[:] = B : remember, and recover a pair when both sides were copied from a consistent pair
     cp = st.ghost.setdefault('copyof', {})
     if ev.get('full') and ev.get('src') is not None and ev.get('view') == (None, None) and ev['src'][2] is None:
-        cp[loc] = (ev['src'][0], ev['src'][1], ev['new'])
+        cp[loc] = (ev['src'][0], ev['src'][1], ev['new'], ev['old'])
     else:
         cp.pop(loc, None)
     ff = st.ghost.get('fancyfrom', {})
@@ -171,10 +171,18 @@ def on_write(ip, st, ev):
                     pr['from_extrap'] = (A, wnew.get_id(), st.heap[xl].get_id())
     for (wl, xl), pr in list(pairs(st).items()):
         if wl in cp and xl in cp and loc in (wl, xl):
-            (w2, wv2, wnew), (x2, xv2, xnew) = cp[wl], cp[xl]
+            (w2, wv2, wnew, wold), (x2, xv2, xnew, xold) = cp[wl], cp[xl]
             if wnew.eq(st.heap[wl]) and xnew.eq(st.heap[xl]) and st.heap[w2].eq(wv2) and st.heap[x2].eq(xv2):
                 src = get_pair(st, w2, x2)
                 pr['ok'], pr['rho'] = src['ok'], src['rho']
+                if src.get('from_extrap') or w2 in st.ghost.get('extrap', {}):
+                    # an extrapolated point is copied into (w, Xw): the copy must be dominated by a test showing that
+                    # the TRUE objective (datafit.value + penalty.value(w[:n_features]) of the same arrays) decreased
+                    nf = z3.Int('n_features')
+                    new_obj = DVAL(wv2, xv2) + PVAL(wv2, z3.IntVal(0), nf)
+                    old_obj = DVAL(wold, xold) + PVAL(wold, z3.IntVal(0), nf)
+                    obl(st, 'accepted-extrapolation-decreases-the-objective', new_obj < old_obj, None, prop='C03',
+                        line_hint=ev.get('line'))
 
 
 # ----------------------------------------------------------------------------- numpy & builtins
